@@ -1606,6 +1606,11 @@ def run_tiled(ctx, c, reqs, pending):
             divs = [_div(it) for it in d2.PerFrameFunctionalGroupsSequence]
             if not bad and any(divs[i] >= divs[i + 1] for i in range(len(divs) - 1)):
                 bad = 'DimensionIndexValues do not strictly increase along the stored frames'
+            # every index column counts the distinct values of its coordinate among the STORED frames: 1..k without gaps
+            for col in range(1 if c['type'] != 'LABELMAP' else 0, len(divs[0]) if divs else 0):
+                vals = sorted({d[col] for d in divs})
+                if not bad and vals != list(range(1, len(vals) + 1)):
+                    bad = f'index values of dimension {col + 1} are {vals}, not 1..{len(vals)} (ranks among the stored tiles)'
         if not bad:
             seen = set()
             for i, (sg, k) in enumerate(keys):
